@@ -187,6 +187,12 @@ def oracle(c, r):
                 ne = norm(e)
                 if ne > 0 and norm(sub([x / ne for x in e], d)) > 1e-7:
                     yield ("station-dir-edge", "at_length(%r): direction %r is not parallel to edge %d" % (l, d, i))
+        # same place by vertex index: a stored vertex length gives that vertex's station
+        if l in lens:
+            kv = max(j for j, v in enumerate(lens) if v == l)
+            want = (kv, 0.0) if kv < len(pts) - 1 else (kv - 1, 1.0)
+            if (i, f) != want:
+                yield ("station-by-vertex", "at_length(lengths[%d]) gives (index, fraction) = (%r, %r); the vertex station is %r" % (kv, i, f, want))
         # same place by fraction
         t = q["at_fraction"]
         if t is not None and (t["index"] != i or abs(t["fraction"] - f) > 1e-9) and 1e-9 < f < 1 - 1e-9:
